@@ -18,6 +18,7 @@ def run(ctx):
     U.flw17_segment_id_units(ctx)
     D.flw18_segment_id_consistency(ctx)
     D.ord15_store_not_conditional_on_presence(ctx)
+    D.erv4_no_error_discarded(ctx)
     return ctx.finish(
         'Static analysis of compiler MIR: structural clauses of the write-ahead protocol that are '
         'necessary for "acknowledged data survives restart" are decided on every CFG path '
